@@ -32,6 +32,12 @@ pub struct Case {
     /// other column flag bits (ZEROFILL, BINARY, NUM, ...): they must not change which range applies
     #[serde(default)]
     pub extra_flags: u16,
+    /// `(binary protocol?, d)`: instead of the encoder-level check, the accepted values travel as
+    /// the cells after a byte string that fills the row up to `d` bytes from the 2^24-1-byte
+    /// packet boundary (d < 0: before it), so that their encodings start before, on and after the
+    /// boundary and straddle it
+    #[serde(default)]
+    pub straddle: Option<(bool, i64)>,
 }
 
 fn base_of(rust_type: usize, v: i128) -> Option<Base> {
@@ -151,7 +157,7 @@ impl Prop for C15 {
         "C15"
     }
     fn rule(&self) -> String {
-        "cases = (Rust integer type in {u8,i8,u16,i16,u32,i32,u64,i64,usize,isize} or generic Value::Int/UInt) x (column type in {TINY,SHORT,YEAR,INT24,LONG,LONGLONG} x {signed,unsigned}) (optionally with other column flag bits such as ZEROFILL or BINARY set, which must not matter) x a set of values: ALL values for 8- and 16-bit types (enumerated, exhaustive), all 2^k, 2^k+-1, -(2^k)+-1 and range bounds for wider types (enumerated), plus random wide values. Each value goes through the public encoder to_mysql_bin; oracle: Ok => bytes decoded at the column's wire width and signedness equal the value as a mathematical integer; it must be accepted when the column's range contains the whole fixed-width Rust type (for usize/isize: the value); otherwise any refusal is fine. A sample additionally travels through a real binary resultset, as the second cell of a two-column row next to a column of the opposite signedness, written both column-by-column and as write_col + write_row. Non-trivial = the value set contains a value the column cannot represent, or a value outside i8's range.".into()
+        "cases = (Rust integer type in {u8,i8,u16,i16,u32,i32,u64,i64,usize,isize} or generic Value::Int/UInt) x (column type in {TINY,SHORT,YEAR,INT24,LONG,LONGLONG} x {signed,unsigned}) (optionally with other column flag bits such as ZEROFILL or BINARY set, which must not matter) x a set of values: ALL values for 8- and 16-bit types (enumerated, exhaustive), all 2^k, 2^k+-1, -(2^k)+-1 and range bounds for wider types (enumerated), plus random wide values. Each value goes through the public encoder to_mysql_bin; oracle: Ok => bytes decoded at the column's wire width and signedness equal the value as a mathematical integer; it must be accepted when the column's range contains the whole fixed-width Rust type (for usize/isize: the value); otherwise any refusal is fine. A sample additionally travels through a real binary resultset, as the second cell of a two-column row next to a column of the opposite signedness, written both column-by-column and as write_col + write_row. Enumerated (and 1 in 4000 generated) cases send the accepted values, in the text and in the binary protocol, as the cells that follow a byte string filling the row up to d bytes from the 2^24-1-byte packet boundary (d = -70..1), so that integer encodings start before, on and after the boundary and straddle it. Non-trivial = the value set contains a value the column cannot represent, or a value outside i8's range.".into()
     }
     fn assumptions(&self) -> Vec<String> {
         vec!["a deliberate assert! panic of the encoder counts as a refusal (nothing is sent)".into()]
@@ -185,7 +191,7 @@ impl Prop for C15 {
             1 => *g.pick(&[64u16, 128, 512, 0x8000, 2, 4096]),
             _ => g.raw() as u16 & !(FLAG_UNSIGNED | FLAG_NOT_NULL),
         };
-        Case { rust_type, coltype: *g.pick(&INT_COLTYPES), unsigned: g.coin(), values: Values::List(vals), wire: g.chance(1, 10), extra_flags }
+        Case { rust_type, coltype: *g.pick(&INT_COLTYPES), unsigned: g.coin(), values: Values::List(vals), wire: g.chance(1, 10), extra_flags, straddle: if g.chance(1, 4000) { Some((g.coin(), g.irange(-70, 1))) } else { None } }
     }
     fn fixed(&self, _tier: Tier) -> Vec<Case> {
         let mut v = Vec::new();
@@ -195,17 +201,29 @@ impl Prop for C15 {
                     // once with no other flag, once with every other flag bit set (ZEROFILL, BINARY, NUM, ...)
                     for extra_flags in [0u16, 0xffff & !(FLAG_UNSIGNED | FLAG_NOT_NULL)] {
                         if rust_type < 4 {
-                            v.push(Case { rust_type, coltype, unsigned, values: Values::All, wire: false, extra_flags });
+                            v.push(Case { rust_type, coltype, unsigned, values: Values::All, wire: false, extra_flags, straddle: None });
                         } else {
-                            v.push(Case { rust_type, coltype, unsigned, values: Values::List(boundary_values(rust_type).into_iter().map(enc).collect()), wire: extra_flags == 0, extra_flags });
+                            v.push(Case { rust_type, coltype, unsigned, values: Values::List(boundary_values(rust_type).into_iter().map(enc).collect()), wire: extra_flags == 0, extra_flags, straddle: None });
                         }
                     }
                 }
             }
         }
+        // integers around a packet boundary of a long row, in both protocols
+        for (i, &d) in [-30i64, -17, -9, -4, -2, -1, 0].iter().enumerate() {
+            for bin in [false, true] {
+                let rust_type = [7usize, 6, 5, 4, 10, 11, 9][i];
+                let (lo, hi) = type_range(rust_type);
+                let vals: Vec<(u64, bool)> = [lo, hi, 0, lo / 3, hi / 7, 12_345, hi - 1].iter().map(|&v| enc(v)).collect();
+                v.push(Case { rust_type, coltype: T_LONGLONG, unsigned: lo >= 0, values: Values::List(vals), wire: false, extra_flags: 0, straddle: Some((bin, d)) });
+            }
+        }
         v
     }
     fn exec(&self, case: &Case) -> Exec {
+        if let Some((bin, d)) = case.straddle {
+            return exec_straddle(case, bin, d);
+        }
         let mut ex = Exec::default();
         let col = ColSpec { table: "t".into(), name: "c".into(), coltype: case.coltype, flags: (if case.unsigned { FLAG_UNSIGNED } else { 0 }) | (case.extra_flags & !(FLAG_UNSIGNED | FLAG_NOT_NULL)) };
         if case.extra_flags != 0 {
@@ -298,4 +316,71 @@ impl Prop for C15 {
         }
         ex
     }
+}
+
+
+/// see `Case::straddle`
+fn exec_straddle(case: &Case, bin: bool, d: i64) -> Exec {
+    use crate::conv::*;
+    use crate::shim::*;
+    let mut ex = Exec::default();
+    ex.class(if bin { "integers-around-a-packet-boundary(binary)" } else { "integers-around-a-packet-boundary(text)" });
+    ex.nontrivial = true;
+    let col = ColSpec { table: "t".into(), name: "c".into(), coltype: case.coltype, flags: if case.unsigned { FLAG_UNSIGNED } else { 0 } };
+    let values: Vec<i128> = match &case.values {
+        Values::All => vec![0, 1],
+        Values::List(l) => l.iter().map(|&(bits, is_u)| if is_u { bits as i128 } else { bits as i64 as i128 }).collect(),
+    };
+    // only values the column must take (text protocol: everything is taken)
+    let cells: Vec<Val> = values
+        .iter()
+        .filter_map(|&v| base_of(case.rust_type, v))
+        .filter(|b| !bin || matches!(bin_expect(b, col.coltype, col.unsigned()), BinExpect::Accept(_)))
+        .take(8)
+        .map(Val::plain)
+        .collect();
+    if cells.is_empty() {
+        return ex;
+    }
+    let ncols = 1 + cells.len();
+    let head = if bin { 1 + (ncols + 7 + 2) / 8 } else { 0 };
+    let len = (MAX_PAYLOAD as i64 + d) as usize - head - 4;
+    let mut cols = vec![ColSpec::simple("fill", T_LONG_BLOB, 0)];
+    cols.extend(cells.iter().map(|_| col.clone()));
+    let mut row_cells = vec![Val::plain(Base::BigBytes { seed: (d + 100) as u32, len })];
+    row_cells.extend(cells.iter().cloned());
+    ex.count("values_sent_around_a_packet_boundary", cells.len() as u64);
+    let rows = vec![RowProg { cells: row_cells, form: if d % 2 == 0 { RowForm::WriteRow } else { RowForm::Cols }, offers: vec![] }];
+    let prog = Program { steps: vec![Step::Set { cols, rows, end: SetEnd::Finish }] };
+    let (conv, idx) = if bin {
+        (
+            Conversation::new(
+                vec![Cmd::Prepare { text: Blob::text("p") }, Cmd::Execute { id: 1, params: vec![], send_types: false, flags: 0, iterations: 1 }, Cmd::Ping],
+                vec![Action::Prepare(PrepProg::Reply { id: 1, params: vec![], cols: vec![] }), Action::Result(prog)],
+            ),
+            1,
+        )
+    } else {
+        (Conversation::new(vec![Cmd::Query { text: Blob::text("q") }, Cmd::Ping], vec![Action::Result(prog)]), 0)
+    };
+    let o = run_with(&conv, None, false);
+    if let RunResult::Panic(p) = &o.result {
+        ex.fail(format!("c15-panic|{}", panic_signature(p)), format!("run_on panicked: {}", o.result.brief()));
+        return ex;
+    }
+    if !o.result.is_ok() {
+        ex.fail("c15-straddle-run-result", format!("run_on returned {} (failing writer call: {:?})", o.result.brief(), o.calls.iter().find(|k| !k.ok).map(|k| k.name)));
+        return ex;
+    }
+    let kinds: Vec<ReplyKind> = conv.cmds.iter().map(|sc| sc.cmd.reply_kind()).collect();
+    let dd = decode_output(&o.out, &kinds);
+    if let Some(p) = &dd.problem {
+        ex.fail("c15-straddle-altered", format!("integers written {} bytes from a packet boundary: the client cannot decode the row: {}", d, p));
+        return ex;
+    }
+    let exps = expectations(&conv);
+    if let Err(m) = check_reply(&exps[idx], &dd.replies[idx], true) {
+        ex.fail("c15-straddle-altered", format!("integers written {} bytes from a packet boundary: {}", d, m.chars().take(400).collect::<String>()));
+    }
+    ex
 }
